@@ -44,7 +44,7 @@ func c02Faults() []c02Fault {
 var c02Engines = []string{"sherpa", "olla"}
 var c02Profiles = []string{"auto", "streaming", "standard"}
 var c02Framings = []string{"cl", "chunked", "close"}
-var c02CTypes = []string{"application/json", "text/event-stream", "application/x-ndjson", "application/octet-stream"}
+var c02CTypes = []string{"application/json", "text/event-stream", "application/x-ndjson", "application/octet-stream", "none"}
 
 func c02GridSize() int {
 	return len(c02Engines) * 3 * len(c02Profiles) * len(c02Framings) * len(c02CTypes) * len(c02Faults())
@@ -99,7 +99,7 @@ func (propC02) Gen(seed uint64, tier string, idx int) *Plan {
 		p.Endpoints = append(p.Endpoints, ep)
 	}
 	// the op under test
-	op := ClientOp{ID: 1, At: 0, Method: "POST", Path: "/olla/proxy/v1/chat/completions", Body: BodySpec{Kind: "json", N: 300, Model: "m1", Stream: ct != "application/json" && ct != "application/octet-stream"}, Deadline: 30 * time.Second}
+	op := ClientOp{ID: 1, At: 0, Method: "POST", Path: "/olla/proxy/v1/chat/completions", Body: BodySpec{Kind: "json", N: 300, Model: "m1", Stream: ct != "application/json" && ct != "application/octet-stream" && ct != "none"}, Deadline: 30 * time.Second}
 	p.Ops = append(p.Ops, op)
 	// first-attempt fault: on whichever backend receives nonce n1 first => put it on every backend's first attempt for n1
 	// (with k endpoints, the a-th attempt of the request lands on some backend; faults are per nonce-attempt on that backend)
